@@ -143,3 +143,8 @@ def describe(plan):
             "chunk_sizes": (e.get("chunks") or [])[:20], "gaps": (e.get("gaps") or [])[:6],
             "recv_callback": {"raise_at": ((plan.get("cb") or {}).get("recv") or {}).get("raise", [])[:10],
                               "delays": dict(list((((plan.get("cb") or {}).get("recv") or {}).get("delay") or {}).items())[:6])}}
+
+
+def seam_check():
+    from .common import seam_net, seam_clock, seam_fs
+    return seam_net()
